@@ -1,4 +1,4 @@
-import Dashu.Model.Mem.Pool
+import Dashu.Model.Mem.Repr
 /-
   C17 — program logic for the ledger monad.  `Sat L n m Q`: started with ledger `L` and fresh counter
   `n` (all ids ≥ n dead), the computation `m`
@@ -77,7 +77,6 @@ theorem Sat.fault_panic {k : PanicKind} {Q : α → Ledger → Nat → Prop} :
 theorem Sat.assertFail {site : String} {Q : α → Ledger → Nat → Prop} :
     Sat L n (assertFail site : M α) Q := Sat.fault_panic
 
-theorem Sat.illTyped {Q : α → Ledger → Nat → Prop} : Sat L n (illTyped : M α) Q := Sat.fault_panic
 
 def Event.isAlloc : Event → Bool
   | .alloc .. => true
